@@ -190,6 +190,10 @@ def relaxed_marker_position_cases(ctx):
         except Exception:  # noqa: BLE001
             pass
         for sv in variants:
+            for bad in (5, "s", [1], {"id": "x"}, {"id": 7, "name": 5}, None):
+                # a union whose alternative is such a dict, given values that match NO alternative (the refusal message prints it)
+                cases.append(SubCase(schema.any(sv, schema.int.min(100)), {"id": 7, "name": "ab", "n": None}, bad, "relaxed-marker-position"))
+                cases.append(SubCase(schema.dict({"u": schema.any(sv, schema.none)}), {"u": None}, {"u": bad}, "relaxed-marker-position"))
             for v in ({"id": 7}, {}, {"name": "ab"}, {"id": 7, "name": "ab", "n": None}, {"id": 7, "extra": 1}, {"tag": "t"},
                       {"n": None, "id": 2}):
                 full = {"id": 7, "name": "ab", "n": None}
@@ -220,6 +224,40 @@ def list_ellipsis_position_cases(ctx):
                     continue
                 cases.append(SubCase(s, [i + 1 for i in range(n)], list(v), "list-ellipsis-position"))
                 cases.append(SubCase(schema.dict({"xs": s}), {"xs": [i + 1 for i in range(n)]}, {"xs": list(v)}, "list-ellipsis-position"))
+    return cases
+
+
+def special_key_subst_cases(ctx):
+    """directed: unions whose dict alternatives have keys special to str.format / %-formatting, substituted with values that
+    match some / no alternative"""
+    from d42 import optional, schema
+    from .hostile import SPECIAL_KEYS
+    cases = []
+    for k in SPECIAL_KEYS:
+        try:
+            d = schema.dict({k: schema.int, optional("o"): schema.str})
+        except Exception:  # noqa: BLE001
+            continue
+        for s in (schema.any(d, schema.str), schema.list(schema.any(d, schema.none)), schema.dict({"in": schema.any(d, schema.list(d))})):
+            for v in ({k: 1}, {k: "x"}, 5, [{k: 1}], [5], {"in": {k: 1}}, {"in": 5}, {"in": [{k: "x"}]}):
+                cases.append(SubCase(s, v, v, "special-key"))
+    return cases
+
+
+def sibling_container_cases(ctx):
+    """directed: values with several container members that differ from each other (so that a probe holding ONE of them at
+    two positions does not carry the substituted data)"""
+    from d42 import schema
+    person = lambda: schema.dict({"n": schema.str, "tags": schema.list(schema.str)})   # noqa: E731
+    cases = []
+    for s, v in ((schema.dict({"owner": person(), "editor": person()}), {"owner": {"n": "ann", "tags": ["a"]}, "editor": {"n": "bob", "tags": ["b"]}}),
+                 (schema.list(person()), [{"n": "ann", "tags": []}, {"n": "bob", "tags": ["x"]}]),
+                 (schema.dict({"a": schema.list(schema.int), "b": schema.list(schema.int)}), {"a": [1], "b": [2]}),
+                 (schema.list([schema.list(schema.int), schema.list(schema.int)]), [[1, 2], [3]]),
+                 (schema.dict, {"a": {"x": 1}, "b": {"x": 2}}), (schema.list, [[1], [2]]),
+                 (schema.dict({"m": schema.dict({"p": schema.dict({"q": schema.int}), "r": schema.dict({"q": schema.int})})}),
+                  {"m": {"p": {"q": 1}, "r": {"q": 2}}})):
+        cases.append(SubCase(s, v, v, "sibling-containers"))
     return cases
 
 
